@@ -936,6 +936,7 @@ int cmd_check(Args const& a)
 	}
 
 	int exit_code = 0;
+	int viol_reported = 0; // violations that passed the replay gate and got a VIOLATION line
 	std::vector<Known> known = load_known();
 	std::set<std::string> known_printed;
 	J viol_list = J::arr();
@@ -1032,6 +1033,7 @@ int cmd_check(Args const& a)
 		vj.set("class", v.cls).set("runs", (long long)vs.size()).set("replay", path);
 		viol_list.push(vj);
 		++n_new;
+		++viol_reported;
 		if (exit_code == 0) exit_code = 1;
 	}
 	for (auto const& h : b.harness_errors)
@@ -1039,6 +1041,9 @@ int cmd_check(Args const& a)
 		std::printf("HARNESS-ERROR: %s\n", h.c_str());
 		exit_code = 2;
 	}
+	// a violation that passed the replay gate stands, whatever else in the batch could not be reproduced (undefined
+	// behaviour in the code under test shows up in many guises, not all of them repeatable)
+	if (n_new > 0 && exit_code == 2 && viol_reported > 0) exit_code = 1;
 
 	// ---- evidence
 	double const wall = now_s() - t0;
